@@ -28,8 +28,9 @@ SW_W = [1, 2, 4, 8]                 # sliding window: powers of two, not wider t
 COMB_W = {8: [1, 2, 3, 4, 5, 6, 8], 16: [1, 2, 3, 4, 5, 8, 9], 32: [1, 2, 3, 4, 5, 8, 9], 64: [1, 2, 3, 4, 5, 8, 9]}
 
 # synthetic curves (index in tiny_curves.h)
-TINY_ALL = 0x3FFF
+TINY_ALL = 0xFFFF
 TINY_2POWER = (1 << 5) | (1 << 12) | (1 << 13)            # cyclic 2-part of order 4 / 16 / 32: points of order 2^k
+TINY_B0 = (1 << 14) | (1 << 15)                          # b = 0: the group point (0, 0)
 TINY_QUICK = (1 << 0) | (1 << 3) | (1 << 5) | (1 << 11)   # A_M3 prime order; a=0; cofactor 4 with order-4 points; 16-bit cofactor 2
 # built-in curves (index in ec_curve_str[])
 REAL_ALL = 0xFFFFFFFF
@@ -97,6 +98,10 @@ def quick_configs():
     for coord, digit, fxp, unk in (('jacR', 8, ('SW', 1), ('SW', 1)), ('jacMR', 64, ('C2', 4), ('SW', 2)), ('jacR', 8, ('C2', 4), ('C2', 4)),
                                    ('jacMR', 8, ('SW', 4), ('SW', 4)), ('jacR', 64, ('C1', 3), ('C1', 3))):
         c.append(mk('q2p', coord, digit, fxp, unk, 'BIN', T_UNK | T_BP | T_ADD, TINY_2POWER, 0))
+    # the group point (0, 0) of the b = 0 curves in every coordinate system
+    for coord, digit, fxp, unk, twin in (('aff', 8, ('SW', 2), ('C1', 2), 'JOINT'), ('jac', 8, ('C1', 3), ('SW', 2), 'INTER'),
+                                         ('jacM', 64, ('C2', 4), ('PRE', None), 'FU'), ('jacMR', 8, ('PRE', None), ('C2', 3), 'BIN')):
+        c.append(mk('qb0', coord, digit, fxp, unk, twin, 15, TINY_B0, 0))
     return c + probe_configs('qprobe')[:1]
 
 
